@@ -106,7 +106,9 @@ class Out:
                 tag = getattr(t, "tag", None)
                 n = t.text.count("\n")
                 for l in range(self.line, self.line + n + 1):
-                    if tag:
+                    if tag and tag.startswith("LABEL:"):
+                        self.map[l] = {"kind": "label", "label": tag[6:], "fn": fn, "clause": "invariant"}
+                    elif tag:
                         self.map[l] = {"kind": "inj", "label": tag, "fn": fn}
                     else:
                         self.map.setdefault(l, {"kind": "src", "file": srcobj.rel, "line": srcobj.line(t.pos), "fn": fn})
@@ -1088,13 +1090,20 @@ def inject_loops(toks: List[Tok], fs: FnSpec, fnq: str) -> List[Tok]:
         pos = toks[kw].pos
         for g in ent.get("ghost", []):
             ins_before.setdefault(kw, []).append(syn(g, pos, "\n", tag=f"{fnq}.loop{k}.ghost"))
-        spec = ""
         if ent.get("invariant"):
-            spec += "\n invariant\n" + "".join(f"   {x},\n" for x in ent["invariant"])
+            ins_before.setdefault(bo, []).append(syn(" invariant", pos, "\n", tag=f"{fnq}.loop{k}.invariant"))
+            for x in ent["invariant"]:
+                # `[label] EXPR`: an invariant that states the property itself (the inductive form of a contract clause) is reported
+                # like a labelled clause; plain invariants are proof scaffolding
+                m = re.match(r"^\[([A-Za-z0-9_.\-]+)\]\s*(.*)$", x, re.S)
+                if m:
+                    ins_before[bo].append(syn(f"   {m.group(2)}, // @{m.group(1)}", pos, "\n", tag="LABEL:" + m.group(1)))
+                else:
+                    ins_before[bo].append(syn(f"   {x},", pos, "\n", tag=f"{fnq}.loop{k}.invariant"))
         if ent.get("decreases"):
-            spec += " decreases " + ", ".join(ent["decreases"]) + "\n"
-        if spec:
-            ins_before.setdefault(bo, []).append(syn(spec, pos, "", tag=f"{fnq}.loop{k}.invariant"))
+            ins_before.setdefault(bo, []).append(syn(" decreases " + ", ".join(ent["decreases"]), pos, "\n", tag=f"{fnq}.loop{k}.invariant"))
+        if ent.get("invariant") or ent.get("decreases"):
+            ins_before[bo].append(syn("", pos, "\n", tag=f"{fnq}.loop{k}.invariant"))
         bs = bo
         while bs + 1 < len(toks) and toks[bs + 1].kind == "syn" and getattr(toks[bs + 1], "tag", None) is None \
                 and not getattr(toks[bs + 1], "stop", False):
